@@ -7,6 +7,7 @@ from harness.elfkit import Image
 from harness import c04 as T
 from harness import c05 as LP5
 from harness import c08 as C8
+from harness import c06 as C6
 
 PROPERTY = 'C10'
 ASSUMPTIONS = [
@@ -836,6 +837,8 @@ HARNESSES = [
       desc='L7: type units found by signature, references through DW_FORM_ref_sig8 and the unit list after iter_TUs() was abandoned after 0-2 steps, run to the end, or after a lookup: cold answers (ground)'),
     H('h10_L3_dwarf_info_per_arguments', C8.h_plumbing, lambda tier: [dict(relname='.rela.debug_info', relocate=r, order='after', history=True) for r in (True, False)], expect=('ok',),
       desc='get_dwarf_info after an earlier call with the opposite relocate_dwarf_sections setting answers for its own arguments (harness shared with C08)'),
+    H('h10_L3_both_frame_accessors', C6.h_scan, lambda tier: [dict(c, via='dwarfinfo') for c in C6._scan_instances(tier)[::9]], expect=('ok',),
+      desc='L3: CFI_entries() and EH_CFI_entries() of one DWARFInfo holding both sections, the other accessor asked first: each answers for its own section (harness shared with C06)'),
     H('h10_L3_memo', h_memo, _memo_instances, expect=('ok',),
       desc='L3: after any single earlier query, after pairs / longer histories and after the whole alphabet in both orders, every query returns its cold answer (unit list, entry lists, abbreviation, '
            'line-program, type-unit and decoded-table memos)'),
